@@ -21,6 +21,11 @@ CHECKS = {
         text='Exploration. A markup-fragment fuzzer (four markups, broken nesting/indentation, unknown directives, roles and fields, headings without slug, doctest indentation errors, arbitrary Unicode incl. controls and surrogates, mutated real docstrings, deep repetitions) drives format_docstring, format_summary, format_toc and flatten for eight object kinds x five docformats x process-types on/off; exceptions and confirmed CPU-budget overruns are violations; when the monitors saw the parser or renderer give up, the object must be in System.parse_errors, a counted message must exist and the page must show the complete docstring as plain text; recoverable reST problems must be reported; a control function in the same module must render as in a clean system.',
         note='A "fatal" error means giving up for epytext only (docutils flags recovered errors as fatal too); BROKEN placeholders are legal for summary/toc/fields only; raw/include point to non-existent paths.',
         ref='4/C08'),
+    'C09': dict(
+        technique='conservation monitor with unique word tokens: structure-aware documents carry ground truth (token order, exact verbatim block text per markup rules, field membership); the visible text of the real format_docstring output is extracted and compared',
+        text='Exploration. Documents built from paragraphs of unique tokens, inline markup, nested lists three deep, literal blocks whose lines look like markup, doctest blocks, sections and fields of every kind (also with literal blocks inside field bodies) are serialised to epytext, reST, Google and NumPy layouts by serializers that encode each markup\'s own rules; the rendered body must show the tokens in source order with nothing glued, every verbatim block character for character, and every field\'s tokens in the row/section of that field (or the field named in a warning); plaintext documents must be reproduced exactly.',
+        note='Well-formed means "as written by vf/gen/docgen.py", each rule citing the markup manual (lists indented in epytext, blocks closed by blank lines, literal text relative to the introducing paragraph in epytext and to the common indentation in docutils). One Google-style defect is a known finding.',
+        ref='4/C09'),
     'C10': dict(
         technique='strict XML parse (expat) of every page written by the real driver + canary/control structural differential: element/attribute skeleton of the hostile run must equal that of a control run in which only the five HTML-significant characters of each planted canary are replaced',
         text='Exploration. A directed module plants unique canaries (tag/attribute/handler look-alikes, entity look-alikes, CDATA and comment delimiters, a script element) in 40+ positions where source text flows into pages (docstrings of every object kind, field bodies and field arguments, constants, defaults, string annotations, decorator arguments, base subscripts, __all__, deprecation messages) under all five docformats; generated projects carry canaries in docstrings; real packages are rendered too. Every page must be well-formed once characters illegal in XML are set aside, and no element or attribute may exist in the hostile output that the control output lacks.',
